@@ -545,6 +545,8 @@ func run(r *vk.Run) {
 		"quiescence (all goroutines blocked in two identical dumps) stands for 'once writers stop and the reader has drained'",
 		"consumers keep receiving; a consumer that stops forever is C09/C10's subject")
 	forced(r)
+	readdEquivalent(r)
+	zeroBodies(r)
 	stress(r)
 	r.Require("forced-scenarios-run", 100)
 	r.Require("stress-runs", 100)
@@ -918,6 +920,223 @@ func stress(r *vk.Run) {
 		if r.WantSample("stress") {
 			es, _ := subs[0].snapshot()
 			r.Sample("stress", map[string]any{"writers": nw, "subscriber": subs[0].spec.String(), "received": renderEvents(es), "commits": renderCommits(w.commits)})
+		}
+	}
+}
+
+// readdEquivalent (F6): on a resource that suppresses duplicates (exact equality or a comparer), an item is removed
+// and then added again with a body equivalent to the one it had, while a subscriber that has seen the item is
+// listening. The subscriber was told about the removal, so it must be told about the re-creation: its folded view
+// has to contain the item again (any equivalent body will do). Also the other way round: a Value written back to an
+// equivalent value keeps the view equivalent to Get.
+func readdEquivalent(r *vk.Run) {
+	n := r.Pick(120, 6000)
+	sameLevel := resource.ComparerFunc(func(x, y proto.Message) bool {
+		a, b := asTat(x), asTat(y)
+		return a != nil && b != nil && a.DefaultInt32 == b.DefaultInt32
+	})
+	for i := 0; i < n; i++ {
+		if !r.Mine(i) {
+			continue
+		}
+		rng := r.CaseRand("c03-readd", i)
+		eq := "nodup"
+		opt := resource.WithNoDuplicates()
+		if rng.Bool() {
+			eq, opt = "comparer", resource.WithEquivalence(sameLevel)
+		}
+		first := &tat{DefaultString: "a#first", DefaultInt32: 7}
+		col := resource.NewCollection(opt, resource.WithClock(clk{}), resource.WithInitialRecord("a", first), resource.WithInitialRecord("b", &tat{DefaultString: "b#first", DefaultInt32: 1}))
+		bp, uo, pullID := rng.Bool(), rng.Chance(1, 3), rng.Chance(1, 3)
+		ctx, cancel := context.WithCancel(context.Background())
+		var mu sync.Mutex
+		view := map[string]*tat{}
+		seen := 0
+		closed := false
+		if pullID {
+			ch := col.PullID(ctx, "b", resource.WithBackpressure(bp), resource.WithUpdatesOnly(uo))
+			go func() {
+				for e := range ch {
+					mu.Lock()
+					view["b"] = asTat(e.Value)
+					seen++
+					mu.Unlock()
+				}
+				mu.Lock()
+				closed = true
+				mu.Unlock()
+			}()
+		} else {
+			ch := col.Pull(ctx, resource.WithBackpressure(bp), resource.WithUpdatesOnly(uo))
+			go func() {
+				for e := range ch {
+					mu.Lock()
+					if e.ChangeType == types.ChangeType_REMOVE {
+						delete(view, e.Id)
+					} else {
+						view[e.Id] = asTat(e.NewValue)
+					}
+					seen++
+					mu.Unlock()
+				}
+			}()
+		}
+		if _, ok := r.MustQuiesce("c03-readd-open"); !ok {
+			cancel()
+			return
+		}
+		// the item the subscriber is judged on is a: make sure an updates-only subscriber has heard of it
+		var trace []string
+		step := func(what string, f func() error) bool {
+			err := f()
+			trace = append(trace, fmt.Sprintf("%s -> %v", what, err))
+			_, ok := r.MustQuiesce("c03-readd-step")
+			return ok
+		}
+		body := func(tag string) *tat {
+			if eq == "nodup" {
+				return proto.Clone(first).(*tat) // exactly the body it had
+			}
+			return &tat{DefaultString: tag, DefaultInt32: 7} // equivalent under the comparer
+		}
+		okAll := step("update a (another level)", func() error {
+			_, err := col.Update("a", &tat{DefaultString: "a#second", DefaultInt32: 8})
+			return err
+		}) && step("update a (back to the first level)", func() error { _, err := col.Update("a", body("a#third")); return err }) &&
+			step("delete a", func() error { _, err := col.Delete("a"); return err }) &&
+			step("add a (equivalent to what it was)", func() error { _, err := col.Add("a", body("a#fourth")); return err })
+		if pullID {
+			okAll = okAll && step("update b", func() error { _, err := col.Update("b", &tat{DefaultString: "b#second", DefaultInt32: 2}); return err })
+		}
+		if !okAll {
+			cancel()
+			return
+		}
+		r.Eval(1)
+		r.Count("readd-equivalent-scenarios", 1)
+		r.Distinct(fmt.Sprintf("readd|%s|%v|%v|%v", eq, bp, uo, pullID))
+		mu.Lock()
+		stored, present := col.Get("a")
+		va, has := view["a"]
+		bad := ""
+		switch {
+		case pullID:
+			if sb, _ := col.Get("b"); closed || view["b"] == nil || !proto.Equal(view["b"], sb) {
+				bad = fmt.Sprintf("PullID(b) on the same collection: closed=%v, last value %s, Get says %s", closed, vk.JSON(view["b"]), vk.JSON(sb))
+			}
+		case !present:
+			bad = "harness: item a is not stored"
+		case !has:
+			bad = fmt.Sprintf("the subscriber was told a was removed and never that it exists again; the collection holds %s", vk.JSON(stored))
+		case va.DefaultInt32 != asTat(stored).DefaultInt32:
+			bad = fmt.Sprintf("the view holds %s, the collection %s", vk.JSON(va), vk.JSON(stored))
+		}
+		mu.Unlock()
+		if bad != "" {
+			mode := map[bool]string{true: "bp", false: "lossy"}[bp]
+			r.Violation("C03/fold/pull/"+mode+"/readd-equivalent/"+eq, fmt.Sprintf("case %d (updates-only %v): %s\n%s", i, uo, bad, strings.Join(trace, "\n")), map[string]any{"case": i})
+		}
+		cancel()
+	}
+	r.MustQuiesce("c03-readd-end")
+	r.Require("readd-equivalent-scenarios", 30)
+}
+
+// zeroBodies (F7): items created with a body that has nothing set (the zero message), Values set to the zero
+// message, and items updated to it: each is a committed change like any other and has to reach Pull and PullID
+// subscribers (with and without backpressure, updates-only or not).
+func zeroBodies(r *vk.Run) {
+	idx := 0
+	for _, bp := range []bool{true, false} {
+		for _, uo := range []bool{false, true} {
+			for _, how := range []string{"add", "upsert", "update-to-zero", "value-set-zero"} {
+				idx++
+				if !r.Mine(idx) {
+					continue
+				}
+				ro := []resource.ReadOption{resource.WithBackpressure(bp), resource.WithUpdatesOnly(uo)}
+				ctx, cancel := context.WithCancel(context.Background())
+				var mu sync.Mutex
+				var got, gotID []string
+				bad := ""
+				if how == "value-set-zero" {
+					val := resource.NewValue(resource.WithClock(clk{}), resource.WithInitialValue(&tat{DefaultString: "init", DefaultInt32: 3}))
+					ch := val.Pull(ctx, ro...)
+					go func() {
+						for e := range ch {
+							mu.Lock()
+							got = append(got, vk.JSON(e.Value))
+							mu.Unlock()
+						}
+					}()
+					r.MustQuiesce("c03-zero-open")
+					_, err := val.Set(&tat{})
+					r.MustQuiesce("c03-zero-write")
+					mu.Lock()
+					if err == nil && (len(got) == 0 || got[len(got)-1] != "{}") {
+						bad = fmt.Sprintf("Value.Set(zero message) succeeded, Get returns %s, the subscriber received %v", vk.JSON(val.Get()), got)
+					}
+					mu.Unlock()
+				} else {
+					col := resource.NewCollection(resource.WithClock(clk{}), resource.WithInitialRecord("a", &tat{DefaultString: "a#init", DefaultInt32: 3}))
+					target := "z"
+					if how == "update-to-zero" {
+						target = "a"
+					}
+					ch := col.Pull(ctx, ro...)
+					go func() {
+						for e := range ch {
+							mu.Lock()
+							got = append(got, fmt.Sprintf("%s %s %s", e.ChangeType, e.Id, vk.JSON(e.NewValue)))
+							mu.Unlock()
+						}
+					}()
+					chID := col.PullID(ctx, target, ro...)
+					go func() {
+						for e := range chID {
+							mu.Lock()
+							gotID = append(gotID, vk.JSON(e.Value))
+							mu.Unlock()
+						}
+					}()
+					r.MustQuiesce("c03-zero-open")
+					var err error
+					switch how {
+					case "add":
+						_, err = col.Add("z", &tat{})
+					case "upsert":
+						_, err = col.Update("z", &tat{}, resource.WithCreateIfAbsent())
+					default:
+						_, err = col.Update("a", &tat{})
+					}
+					r.MustQuiesce("c03-zero-write")
+					mu.Lock()
+					kind := "ADD"
+					if how == "update-to-zero" {
+						kind = "UPDATE"
+					}
+					want := fmt.Sprintf("%s %s {}", kind, target)
+					_, stored := col.Get(target)
+					switch {
+					case err != nil || !stored:
+						bad = fmt.Sprintf("harness: %s failed: %v (stored %v)", how, err, stored)
+					case len(got) == 0 || got[len(got)-1] != want:
+						bad = fmt.Sprintf("%s of %q with the zero message succeeded and Get finds it; the Pull subscriber's last events are %v, want %q last", how, target, got, want)
+					case len(gotID) == 0 || gotID[len(gotID)-1] != "{}":
+						bad = fmt.Sprintf("%s of %q with the zero message succeeded and Get finds it; the PullID(%s) subscriber received %v", how, target, target, gotID)
+					}
+					mu.Unlock()
+				}
+				r.Eval(1)
+				r.Count("zero-body-scenarios", 1)
+				r.Distinct(fmt.Sprintf("zero|%v|%v|%s", bp, uo, how))
+				if bad != "" {
+					mode := map[bool]string{true: "bp", false: "lossy"}[bp]
+					r.Violation("C03/fold/pull/"+mode+"/zero-body/"+how, fmt.Sprintf("updates-only %v: %s", uo, bad), map[string]any{"bp": bp, "updatesOnly": uo, "how": how})
+				}
+				cancel()
+				r.MustQuiesce("c03-zero-end")
+			}
 		}
 	}
 }
